@@ -28,6 +28,7 @@ import (
 	"io"
 	"net"
 	"os"
+	"sort"
 	"strconv"
 	"strings"
 	"sync"
@@ -199,6 +200,11 @@ type wb struct {
 	outBase float64
 	fails   []string
 	maxID   uint64
+	// sibKilled[(cid,fwd)]: a SIBLING stream of the same connection was broken and re-created since this stream was
+	// created / re-created.  Only then may the code take the "another stream already handles this epoch" branch and
+	// skip failPendingRequests (reported defect of the unchanged tree, tolerated); in every other case a broken
+	// stream must fail all of its pending entries before it is re-created.
+	sibKilled map[[2]int]bool
 }
 
 type H struct {
@@ -222,6 +228,8 @@ func (h *H) interceptor(cid int) grpc.StreamClientInterceptor {
 		w.mu.Lock()
 		if old, ok := w.streams[[2]int{cid, fwd}]; ok {
 			fs.sendFail.Store(old.sendFail.Load())
+		} else {
+			w.sibKilled[[2]int{cid, fwd}] = false
 		}
 		w.streams[[2]int{cid, fwd}] = fs
 		w.all = append(w.all, fs)
@@ -299,7 +307,7 @@ func (h *H) reset(n, limit, nfwd int) string {
 		h.restore = nil
 	}
 	w := &wb{n: n, nfwd: nfwd, streams: map[[2]int]*fakeStream{}, reqToH: map[*tikvpb.BatchCommandsRequest_Request]int{},
-		wire: map[int]int{}, idOwner: map[int]int{}, locked: make([]bool, n)}
+		wire: map[int]int{}, idOwner: map[int]int{}, locked: make([]bool, n), sibKilled: map[[2]int]bool{}}
 	h.cur.Store(w)
 	w.v = client.VerifNewBatch("verif-c18-wb", h.conns[:n], maxBatch, int64(limit), 5*time.Second)
 	for cid := 0; cid < n; cid++ {
@@ -557,14 +565,38 @@ func (w *wb) kill(cid, fwd int) string {
 		return "FAIL stream-not-recreated"
 	}
 	head := []string{fmt.Sprintf("ep %d", w.v.Epoch(cid)), w.tblStr(cid)}
-	if w.v.Epoch(cid) != epoch0 {
-		// property op part: this recv loop won the epoch CAS, i.e. the code decided to fail the pending requests of
-		// this stream before re-creating it: none of them may still be pending
+	w.mu.Lock()
+	tolerated := w.sibKilled[[2]int{cid, fwd}]
+	for k := range w.streams {
+		if k[0] == cid && k[1] != fwd {
+			w.sibKilled[k] = true
+		}
+	}
+	w.sibKilled[[2]int{cid, fwd}] = false
+	w.mu.Unlock()
+	if w.v.Epoch(cid) != epoch0 || !tolerated {
+		// property op part, on the implementation's own observations: a broken stream fails all pending requests of
+		// its forwarded host before it is re-created.  Tolerated exception (reported defect of the unchanged tree): a
+		// sibling stream of the same connection was re-created since this stream's last (re-)creation and the epoch did
+		// not move, i.e. the code took its "another stream handles this epoch" branch.
+		var left []int
 		for id, host := range w.v.TableHost(cid) {
 			if host == fwdName(fwd) {
-				head = append(head, fmt.Sprintf("FAIL pending-entry-survives-recreate id=%d", id))
-				break
+				left = append(left, int(id))
 			}
+		}
+		if len(left) > 0 {
+			sort.Ints(left)
+			stuck := []int{}
+			w.mu.Lock()
+			for _, id := range left {
+				if h, ok := w.idOwner[id]; ok && !w.callers[h].returned {
+					stuck = append(stuck, h)
+				}
+			}
+			w.mu.Unlock()
+			head = append(head, fmt.Sprintf("FAIL pending-entry-survives-recreate stream=%d/%d ids=%s callers-stuck=%s",
+				cid, fwd, strings.ReplaceAll(natList(left), " ", ","), strings.ReplaceAll(natList(stuck), " ", ",")))
 		}
 	}
 	return join(head, w.collect(nil))
@@ -780,6 +812,42 @@ type echoServer struct {
 	nStream int
 	served  atomic.Int64
 	resolve map[uint64]int // start version -> requests seen
+	active  map[*srvStream]chan struct{} // live streams -> break signal
+	held    map[int]*srvStream           // payloads >= holdBase are never answered: payload -> stream that got it
+}
+
+const holdBase = 1 << 20
+
+// breakStreams ends every live stream with this forwarded host with an error; returns how many were signalled.
+func (s *echoServer) breakStreams(fwd string) int {
+	s.mu.Lock()
+	defer s.mu.Unlock()
+	n := 0
+	for st, ch := range s.active {
+		if st.fwd == fwd {
+			select {
+			case ch <- struct{}{}:
+				n++
+			default:
+			}
+		}
+	}
+	return n
+}
+
+// heldOn reports how many of the given held payloads have arrived on a stream that is still live.
+func (s *echoServer) heldOn(payloads []int) int {
+	s.mu.Lock()
+	defer s.mu.Unlock()
+	n := 0
+	for _, p := range payloads {
+		if st, ok := s.held[p]; ok {
+			if _, live := s.active[st]; live {
+				n++
+			}
+		}
+	}
+	return n
 }
 
 func (s *echoServer) start(addr string) {
@@ -851,7 +919,36 @@ func (s *echoServer) BatchCommands(ss tikvpb.Tikv_BatchCommandsServer) error {
 	s.nStream++
 	s.streams = append(s.streams, st)
 	rng := vx.NewRand(s.seed*1000003 + uint64(st.seq))
+	brk := make(chan struct{}, 1)
+	if s.active == nil {
+		s.active = map[*srvStream]chan struct{}{}
+		s.held = map[int]*srvStream{}
+	}
+	s.active[st] = brk
 	s.mu.Unlock()
+	defer func() {
+		s.mu.Lock()
+		delete(s.active, st)
+		s.mu.Unlock()
+	}()
+	type rcv struct {
+		req *tikvpb.BatchCommandsRequest
+		err error
+	}
+	recvCh := make(chan rcv, 1)
+	go func() {
+		for {
+			req, err := ss.Recv()
+			select {
+			case recvCh <- rcv{req, err}:
+			case <-ss.Context().Done():
+				return
+			}
+			if err != nil {
+				return
+			}
+		}
+	}()
 	var sendMu sync.Mutex
 	send := func(ids []uint64, rs []*tikvpb.BatchCommandsResponse_Response) {
 		sendMu.Lock()
@@ -864,9 +961,15 @@ func (s *echoServer) BatchCommands(ss tikvpb.Tikv_BatchCommandsServer) error {
 	}
 	nBatch := 0
 	for {
-		req, err := ss.Recv()
-		if err != nil {
-			return err
+		var req *tikvpb.BatchCommandsRequest
+		select {
+		case r := <-recvCh:
+			if r.err != nil {
+				return r.err
+			}
+			req = r.req
+		case <-brk:
+			return errors.New("verif: server breaks the stream on demand")
 		}
 		nBatch++
 		var nowIds []uint64
@@ -881,6 +984,8 @@ func (s *echoServer) BatchCommands(ss tikvpb.Tikv_BatchCommandsServer) error {
 			}
 			r := encodeResp(kind, echo(p))
 			switch {
+			case p >= holdBase:
+				s.held[p] = st // held: never answered
 			case s.faults&fDrop != 0 && rng.Chance(8):
 				// never answered
 			case s.faults&fDelay != 0 && rng.Chance(40):
@@ -932,7 +1037,133 @@ type call struct {
 	key      uint64 // collapse scenario: start version
 }
 
+// rebreak: the real RPCClient; in every round fresh requests are pending on the target stream (the server holds them),
+// then the server breaks exactly that stream.  "Stream failure fails all pending entries of that stream": the held
+// callers must come back with an error long before their own time-out (8 s; bound 4 s after the break), every round.
+// nreq = number of rounds (breaks of the same stream), ncallers = held callers per round,
+// faults&fForward: a sibling forwarded stream exists and carries traffic but is never broken.
+func (h *H) rebreak(seed, nconn, ncallers, rounds, faults int) string {
+	h.cur.Load().endCase()
+	if nconn != 1 || ncallers < 1 || rounds < 1 || rounds > 8 {
+		return "bad-op"
+	}
+	restore := config.UpdateGlobal(func(c *config.Config) {
+		c.TiKVClient.MaxBatchSize = maxBatch
+		c.TiKVClient.GrpcConnectionCount = 1
+	})
+	defer restore()
+	srv := &echoServer{seed: uint64(seed), resolve: map[uint64]int{}}
+	srv.start("")
+	defer srv.stop()
+	rpc := client.NewRPCClient()
+	defer rpc.Close()
+	addr := srv.addr
+	target := "" // the direct stream is the one that breaks
+	const heldTimeout = 8 * time.Second
+	const bound = 4 * time.Second
+	send := func(payload int, fwd string, tmo time.Duration) (int, error) {
+		req := tikvrpc.NewRequest(tikvrpc.CmdGet, &kvrpcpb.GetRequest{Key: []byte(strconv.Itoa(payload))})
+		req.ForwardedHost = fwd
+		resp, err := rpc.SendRequest(context.Background(), addr, req, tmo)
+		if err != nil {
+			return 0, err
+		}
+		g, ok := resp.Resp.(*kvrpcpb.GetResponse)
+		if !ok {
+			return -1, nil
+		}
+		v, _ := strconv.Atoi(string(g.Value))
+		return v, nil
+	}
+	next := 0
+	for r := 1; r <= rounds; r++ {
+		// the stream (re-created after the previous break) works: a few ordinary calls, retried while reconnecting
+		okCalls := 0
+		deadline := time.Now().Add(waitLong)
+		for okCalls < 3 && time.Now().Before(deadline) {
+			next++
+			fwd := target
+			if faults&fForward != 0 && next%2 == 0 {
+				fwd = "fwd1"
+			}
+			v, err := send(next, fwd, 2*time.Second)
+			if err == nil {
+				if v != echo(next) {
+					return fmt.Sprintf("FAIL wrong-response payload=%d got=%d", next, v)
+				}
+				okCalls++
+			}
+		}
+		if okCalls < 3 {
+			return fmt.Sprintf("FAIL stream-not-usable-after-break round=%d", r)
+		}
+		// fresh pending requests on the target stream (and, with a sibling, one on the sibling that must survive)
+		type res struct {
+			lat time.Duration
+			err error
+			v   int
+		}
+		out := make(chan res, ncallers)
+		var payloads []int
+		t0 := make([]time.Time, ncallers)
+		for i := 0; i < ncallers; i++ {
+			p := holdBase + r*1000 + i
+			payloads = append(payloads, p)
+			go func(i, p int) {
+				t0[i] = time.Now()
+				v, err := send(p, target, heldTimeout)
+				out <- res{time.Since(t0[i]), err, v}
+			}(i, p)
+		}
+		for time.Now().Before(deadline) && srv.heldOn(payloads) < ncallers {
+			time.Sleep(200 * time.Microsecond)
+		}
+		if srv.heldOn(payloads) < ncallers {
+			return fmt.Sprintf("FAIL held-requests-not-at-server round=%d", r)
+		}
+		tBreak := time.Now()
+		if srv.breakStreams(target) == 0 {
+			return fmt.Sprintf("FAIL no-live-stream round=%d", r)
+		}
+		for i := 0; i < ncallers; i++ {
+			select {
+			case x := <-out:
+				after := time.Since(tBreak)
+				if x.err == nil {
+					return fmt.Sprintf("FAIL held-call-got-response round=%d v=%d", r, x.v)
+				}
+				h.run.Count("bb:rebreak:err:" + errClass(x.err))
+				if after > bound {
+					return fmt.Sprintf("FAIL pending-call-not-failed-by-stream-break round=%d break=%d returned=%s after-break class=%s (time-out %s)",
+						r, r, after.Round(100*time.Millisecond), errClass(x.err), heldTimeout)
+				}
+			case <-time.After(heldTimeout + bbSlack):
+				return fmt.Sprintf("FAIL caller-stuck round=%d", r)
+			}
+		}
+	}
+	// ids at the server: strictly increasing per stream, never reused
+	srv.mu.Lock()
+	defer srv.mu.Unlock()
+	seen := map[uint64]bool{}
+	for _, st := range srv.streams {
+		var last uint64
+		for _, id := range st.ids {
+			if id <= last || seen[id] {
+				return fmt.Sprintf("FAIL id-reused-or-not-increasing id=%d stream=%d", id, st.seq)
+			}
+			last = id
+			seen[id] = true
+		}
+	}
+	h.run.Stats["bb:rebreak:streams"] += len(srv.streams)
+	return "ok"
+}
+
 func (h *H) blackbox(scn string, seed, nconn, ncallers, nreq, faults int) string {
+	if scn == "rebreak" {
+		return h.rebreak(seed, nconn, ncallers, nreq, faults)
+	}
 	h.cur.Load().endCase()
 	if nconn < 1 || nconn > 4 || ncallers < 1 || nreq < 1 {
 		return "bad-op"
@@ -1221,6 +1452,47 @@ func genCase(r *vx.Rand, emit func(string), nops int) {
 	emit("audit")
 }
 
+// genRebreak: the same stream breaks k times, with fresh pending requests before every break.
+// variant 0: single connection, no sibling streams; 1: sibling streams exist but are never broken;
+// 2: siblings are broken in between as well (then the code's own "another stream handles this epoch" branch is legal).
+func genRebreak(r *vx.Rand, emit func(string), k, variant int) {
+	n, nfwd := 1, 0
+	if variant > 0 {
+		nfwd = 1 + r.Intn(2)
+		n = 1 + r.Intn(2)
+	}
+	emit(fmt.Sprintf("reset %d %d %d", n, defLimit, nfwd))
+	tcid, tfwd := r.Intn(n), r.Intn(nfwd+1)
+	subs := 0
+	for round := 1; round <= k; round++ {
+		// fresh requests for every stream of every connection (round robin: one flush per connection)
+		for c := 0; c < n; c++ {
+			m := 1 + r.Intn(3)
+			for i := 0; i < m; i++ {
+				emit(fmt.Sprintf("submit %d %d %d", 1000+subs, r.Intn(16), tfwd))
+				subs++
+			}
+			for f := 0; f <= nfwd; f++ {
+				if f != tfwd {
+					emit(fmt.Sprintf("submit %d %d %d", 1000+subs, r.Intn(10), f))
+					subs++
+				}
+			}
+			emit("fetch 128")
+			emit("flush")
+		}
+		if r.Chance(40) && subs > 1 {
+			emit(fmt.Sprintf("recv %d %d %d", tcid, tfwd, 1+r.Intn(subs)))
+		}
+		if variant == 2 && r.Chance(60) {
+			emit(fmt.Sprintf("kill %d %d", tcid, (tfwd+1)%(nfwd+1)))
+		}
+		emit(fmt.Sprintf("kill %d %d", tcid, tfwd))
+	}
+	emit("close")
+	emit("audit")
+}
+
 func main() {
 	run := vx.Start()
 	defer run.Finish()
@@ -1262,6 +1534,20 @@ func main() {
 		"submit 3 0 1", "fetch 8", "flush", "kill 0 1", "recv 0 1 2 3", "close", "audit"} {
 		do(op)
 	}
+	// directed family: the same stream breaks 2, 3, 4 times with fresh pending requests before each break
+	nre := 1
+	if run.Thorough() {
+		nre = 6
+	}
+	for rep := 0; rep < nre; rep++ {
+		for variant := 0; variant < 3; variant++ {
+			for k := 2; k <= 4; k++ {
+				newCase()
+				run.Count(fmt.Sprintf("family:rebreak:v%d:k%d", variant, k))
+				genRebreak(r.Fork(), do, k, variant)
+			}
+		}
+	}
 	for i := 0; i < ncases; i++ {
 		newCase()
 		nops := 20 + r.Intn(100)
@@ -1285,6 +1571,10 @@ func main() {
 		{"mix", 1, 24, 4, fDelay | fKill | fClose | fCancel},
 		{"mix", 2, 24, 5, fDelay | fLimit | fKill | fDup},
 		{"collapse", 1, 12, 4, fDelay},
+		// the same stream breaks nreq = 2, 3, 4 times with ncallers fresh pending requests each time
+		{"rebreak", 1, 4, 2, 0},
+		{"rebreak", 1, 3, 3, fForward},
+		{"rebreak", 1, 3, 4, 0},
 	}
 	for rep := 0; rep < nbb; rep++ {
 		for _, s := range base {
@@ -1293,6 +1583,9 @@ func main() {
 			sc := 1
 			if run.Thorough() {
 				sc = 2
+			}
+			if s.name == "rebreak" {
+				sc = 1
 			}
 			do(fmt.Sprintf("bb %s %d %d %d %d %d", s.name, r.Intn(1<<30), s.nconn, s.ncallers*sc, s.nreq, s.faults))
 		}
